@@ -320,10 +320,14 @@ def _rest_after_r2(ctx, core, cg, G_holder=None):
     from rules import c04 as c04_
     c04_.parameters_last(ctx, "C03.R3", core)
     # inside a call the function's own name denotes the function: every caller hands the function value itself as `this`
-    ctx.rule("C03.R6", "the names visible inside a call are what the statement says: the function's own name is bound to the function value the caller resolved (never to an operand), and the names a do-block binds are bound for the capture analysis only after their right-hand side was scanned (so `x = x + 1` inside a function still reads - and captures - the outer x)", floor=10)
+    ctx.rule("C03.R6", "the names visible inside a call are what the statement says: the function's own name is bound to the function value the caller resolved (never to an operand), and the names a do-block binds are bound for the capture analysis only after their right-hand side was scanned (so `x = x + 1` inside a function still reads - and captures - the outer x); every name the body reads is captured where the function is written and every parameter is bound on every call, so a caller's parameter or local of the same spelling is never what the body sees", floor=10)
     from rules import c13 as c13_
     c13_.this_pairing(ctx, "C03.R6", core)
-    c04_.free_variable_rule(ctx, "C03.R6", core, only=lambda k_: k_.startswith("binder["))
+    c04_.free_variable_rule(ctx, "C03.R6", core, only=lambda k_: k_.startswith("binder[") or k_.startswith("read-position=") or k_.startswith("recurses-into="))
+    # ... and a name the function's writer could see is never taken from the caller instead: every free name of the body is captured
+    # at definition, and every parameter is bound on every call (an unbound one would let an outer name of that spelling show through)
+    c04_.capture_at_creation(ctx, "C03.R6", core)
+    c04_.positional_binding(ctx, "C03.R6", core)
     scope_chain_rule(ctx, "C03.R7", core)
     # parameters shadow outer names in the source text emitted for a function, too (do-block locals in emitted source: C05.R8, a listed finding there)
     ctx.rule("C03.R8", "a function parameter that shadows a captured outer name keeps shadowing it in the source emitted for the function (output / to_string / JSON): the inliner removes the parameters of a nested function - of every kind, by their name, not their printed form - from the values it substitutes", floor=1)
